@@ -2,6 +2,4 @@ package main
 
 import "verif/harness/fw"
 
-func genF5(g *fw.GenCtx, em *emitter)        {}
-func genF7(g *fw.GenCtx, em *emitter)        {}
 func genF8(g *fw.GenCtx, em *emitter, reps []Exec) {}
